@@ -245,6 +245,11 @@ func (g *gen) bound(pool [][]byte) []byte {
 
 // scenario generates one op sequence; it is then run on every implementation.
 func (g *gen) scenario(n int, big bool) []op {
+	return g.scenarioW(n, big, 4)
+}
+
+// scenarioW: reopenPct is the share of reopen ops (a high share makes leveldb compact its tables).
+func (g *gen) scenarioW(n int, big bool, reopenPct int) []op {
 	pool := g.keyPool(big)
 	key := func() []byte { return pool[g.rnd.Intn(len(pool))] }
 	var ops []op
@@ -274,7 +279,7 @@ func (g *gen) scenario(n int, big bool) []op {
 			ops = append(ops, op{name: "find", a: g.bound(pool), b: g.bound(pool)})
 		case x < 93:
 			ops = append(ops, op{name: "flush"})
-		case x < 97:
+		case x < 93+reopenPct:
 			ops = append(ops, op{name: "reopen"})
 		default:
 			ops = append(ops, op{name: "dump"})
@@ -350,8 +355,15 @@ func (g *gen) mergeHits(o op) {
 	if g.in.bufKV == nil {
 		return
 	}
-	a, _ := scan(g.in.bufKV.Find(string(o.a), string(o.b)))
-	b, _ := scan(g.in.backKV.Find(string(o.a), string(o.b)))
+	var a, b []string
+	if hk.Guard(func() string {
+		a, _ = scan(g.in.bufKV.Find(string(o.a), string(o.b)))
+		b, _ = scan(g.in.backKV.Find(string(o.a), string(o.b)))
+		return ""
+	}) != "" {
+		g.r.Hit("merge:side-scan-panicked")
+		return
+	}
 	keysOf := func(rows []string) map[string]bool {
 		m := map[string]bool{}
 		for _, r := range rows {
@@ -439,10 +451,10 @@ func nontrivial(ops []op) bool {
 // runCase runs one op sequence on one implementation as one case.
 func (g *gen) runCase(label string, c implCfg, ops []op) {
 	r := g.r
-	r.Case(label + " " + c.impl + c.max)
+	r.Case(label + " " + c.impl + " " + c.max)
 	g.in = &interp{}
 	liveSwap(g.in)
-	g.ex = func(w []string) string { return hk.Guard(func() string { return g.in.exec(w) }) }
+	g.ex = g.in.guarded
 	g.ref = refMap{}
 	g.impl = c.impl
 	open := "open " + c.impl
@@ -471,7 +483,7 @@ func liveSwap(in *interp) {
 
 var malformed = []string{
 	"open", "open foo", "open buffer", "open buffer x", "open buffer -0", "open buffer 01", "open buffer 1234567890",
-	"open mem 1", "open buffer 1 2", "get", "get zz", "get AB", "get 6", "get 61 62", "set 61", "set 61 62 63",
+	"open mem 1", "open buffer 1 2", "open buffer 1 mem 2", "open buffer 1 buffer", "open buffer mem", "get", "get zz", "get AB", "get 6", "get 61 62", "set 61", "set 61 62 63",
 	"find 61", "find", "del", "batch s 61", "batch x", "batch d", "batch s 61 62 d", "batch d 61 s 62", "flush 1",
 	"reopen now", "dump 1", "frob", "frob 61", "get 6*3", "get 61*0", "get 61*100001", "get 61*03", "get 61+",
 	"get +61", "get 61++62", "get -+61", "get 61*3*2", "get 6161*3", "get 61*", "get *3", "get 61*3+", "get --",
@@ -486,7 +498,7 @@ func (g *gen) malformedCase(c implCfg) {
 	r.Case("malformed " + c.impl + c.max)
 	g.in = &interp{}
 	liveSwap(g.in)
-	g.ex = func(w []string) string { return hk.Guard(func() string { return g.in.exec(w) }) }
+	g.ex = g.in.guarded
 	for _, l := range malformed {
 		out := g.raw(l)
 		if out != "bad-op" && out != "noopen" {
@@ -510,7 +522,10 @@ func (g *gen) malformedCase(c implCfg) {
 		n = 1500
 	}
 	for i := 0; i < n; i++ {
-		b := []byte(valid[g.rnd.Intn(len(valid))])
+		// corrupt the arguments only (the op word stays, malformed op words are in the fixed list)
+		v := valid[g.rnd.Intn(len(valid))]
+		sp := strings.IndexByte(v, ' ')
+		head, b := v[:sp+1], []byte(v[sp+1:])
 		for k := 0; k <= g.rnd.Intn(2); k++ {
 			switch g.rnd.Intn(3) {
 			case 0:
@@ -525,6 +540,7 @@ func (g *gen) malformedCase(c implCfg) {
 				}
 			}
 		}
+		b = append([]byte(head), b...)
 		l := strings.TrimSpace(string(b))
 		if l == "" || strings.HasPrefix(l, "#") {
 			continue
@@ -538,10 +554,11 @@ func (g *gen) malformedCase(c implCfg) {
 func Run(r *hk.Run) {
 	defer Cleanup()
 	g := &gen{r: r, rnd: r.R}
-	r.Res.Rule = "a scenario is a random sequence of get/set/del/batch/find/flush/reopen/dump over a small key universe (one random base with its 0x00/0xff/'|'/':' extensions and prefixes, the empty key, index-like keys; in 'big' scenarios also 766/767/768-byte keys and 62999/63000/63001-byte values); every scenario is run as one case on each of mem, leveldb, kvfile, sqlite and buffer(mem,mem) with maxBuffer -1, 0, 40 and 1000000; each answer is compared with the Lean model (correspondence) and with a reference map (oracle). distinct = distinct (implementation, op sequence) with at least 2 mutations and 2 reads"
+	r.Res.Rule = "a scenario is a random sequence of get/set/del/batch/find/flush/reopen/dump over a small key universe (one random base with its 0x00/0xff/'|'/':' extensions and prefixes, the empty key, index-like keys; in 'big' scenarios also 766/767/768-byte keys and 62999/63000/63001-byte values); every scenario is run as one case on each of mem, leveldb, kvfile, sqlite, buffer(mem,mem) with maxBuffer -1, 0, 40 and 1000000, and buffer(mem, leveldb|kvfile|sqlite); reopen-heavy scenarios (25% reopen) make leveldb compact; each answer is compared with the Lean model (correspondence) and with a reference map (oracle). distinct = distinct (implementation, op sequence) with at least 2 mutations and 2 reads"
 
 	cfgs := []implCfg{{"mem", ""}, {"leveldb", ""}, {"kvfile", ""}, {"sqlite", ""},
-		{"buffer", "-1"}, {"buffer", "0"}, {"buffer", "40"}, {"buffer", "1000000"}}
+		{"buffer", "-1"}, {"buffer", "0"}, {"buffer", "40"}, {"buffer", "1000000"},
+		{"buffer", "40 leveldb"}, {"buffer", "40 kvfile"}, {"buffer", "40 sqlite"}, {"buffer", "1000000 kvfile"}}
 
 	// hand-written cases: the witnesses of the findings and the boundary sizes, on every implementation
 	fixed := [][]string{
@@ -549,6 +566,11 @@ func Run(r *hk.Run) {
 		{"set 61 01", "flush", "set - 02", "dump", "find - -", "find - 62"},
 		{"set - 01", "flush", "set 61 02", "dump", "find - -", "find - 62", "get -"},
 		{"set - 01", "set 61 02", "flush", "set - 03", "set 62 04", "find - -", "del -", "find - -"},
+		// F-C10-2 (fixed): Flush / Close of an empty buffer, then more work on the backing store
+		{"flush", "get 61", "reopen", "get 61", "set 61 01", "flush", "flush", "find - -", "reopen", "reopen", "find - -"},
+		// F-C10-3 (fixed): inverted ranges on a store that has been reopened often enough to compact
+		{"set 61 01", "reopen", "set 62 01", "reopen", "set 63 01", "reopen", "set 64 01", "reopen", "set 65 01", "reopen",
+			"find 7a 60", "find 7a 61", "find 66 61", "find 65 61", "find 62 61", "find 65 65", "find - -", "find 62 65"},
 		// buffer shadowing, delete-through
 		{"set 61 01", "flush", "set 61 02", "dump", "get 61", "find - -", "del 61", "get 61", "find - -", "dump"},
 		{"batch s 61 01 d 61 s 62 02 s 62 03 d 63", "find - -", "flush", "batch d 62 s 62 04 s 61 05 d 61", "find - -", "reopen", "find - -"},
@@ -574,9 +596,9 @@ func Run(r *hk.Run) {
 	}
 	r.Sample(map[string]any{"kind": "fixed", "ops": fixed[0]})
 
-	nScen, nOps, nBig := 24, 45, 4
+	nScen, nOps, nBig := 120, 45, 30
 	if r.Thorough() {
-		nScen, nOps, nBig = 260, 70, 40
+		nScen, nOps, nBig = 2000, 70, 400
 	}
 	for i := 0; i < nScen+nBig; i++ {
 		big := i >= nScen
@@ -594,6 +616,19 @@ func Run(r *hk.Run) {
 				ls = append(ls, short(o.line()))
 			}
 			r.Sample(map[string]any{"kind": label, "first_ops": ls})
+		}
+	}
+
+	nHeavy := 6
+	if r.Thorough() {
+		nHeavy = 120
+	}
+	for i := 0; i < nHeavy; i++ {
+		ops := g.scenarioW(60+g.rnd.Intn(60), false, 25)
+		for _, c := range cfgs {
+			if c.impl != "mem" {
+				g.runCase(fmt.Sprintf("reopen-heavy-%d", i), c, ops)
+			}
 		}
 	}
 
@@ -641,5 +676,39 @@ func probes(r *hk.Run) {
 	}
 	if !okPan {
 		r.Fail("buffer:find-overruns-exhausted-backing-iterator", "buffer{a,b} over an empty kvfile store", "ok 61=31 62=32", pan, nil)
+	}
+
+	// F-C10-3 (fixed by adfbde6): leveldb Find with start > end panicked in goleveldb once table files
+	// had been compacted.
+	w3 := []string{"open leveldb", "set 61 01", "reopen", "set 62 01", "reopen", "set 63 01", "reopen", "set 64 01", "reopen",
+		"set 65 01", "reopen", "find 7a 60"}
+	in3 := &interp{}
+	liveSwap(in3)
+	last := ""
+	for _, l := range w3 {
+		last = in3.guarded(strings.Fields(l))
+	}
+	Cleanup()
+	r.ImplOnly("probe")
+	r.Probe("F-C10-3", last != "rows 0", "leveldb after 5 set+reopen rounds: find 7a 60 -> "+last)
+	if last != "rows 0" {
+		r.Fail("leveldb:find-inverted-range-panics", "Find(start > end) on a compacted leveldb store", "rows 0", last, w3)
+	}
+
+	// F-C10-2 (fixed by 35f9fac): Flush of an empty buffer over a sqlite backing store left a batch
+	// (transaction + gate slot) open; the next operation blocked forever.
+	w2 := []string{"open buffer 100 sqlite", "flush", "get 61"}
+	in := &interp{}
+	liveSwap(in)
+	var outs []string
+	for _, l := range w2 {
+		outs = append(outs, in.guarded(strings.Fields(l)))
+	}
+	Cleanup()
+	r.ImplOnly("probe")
+	got := strings.Join(outs, ",")
+	r.Probe("F-C10-2", got != "ok,ok,notfound", "open buffer 100 sqlite; flush; get 61 -> "+got)
+	if got != "ok,ok,notfound" {
+		r.Fail("buffer:flush-empty-leaks-backing-batch", "Flush of an empty buffer over sqlite", "ok,ok,notfound", got, w2)
 	}
 }
